@@ -12,9 +12,11 @@ from . import common as C
 PID = "C12"
 BASENAMES = ["utils", "core", "models", "helpers", "api"]
 WRAPS = ["top", "top", "top", "func", "try_body", "try_else", "except_body", "finally_body", "if_else", "class_body", "type_checking", "type_checking_else",
-         "typing_type_checking", "with_body", "for_body", "nested_func"]
+         "typing_type_checking", "with_body", "for_body", "nested_func", "tc_nested_if", "tc_nested_if_else", "tc_try", "tc_in_func", "tc_with_for", "tc_else_nested_if", "elif2_body"]
+# wrappers under which the import is for type checkers only (any enclosing `if TYPE_CHECKING`, however deep, unless the path goes through its else)
+TC_WRAPS = {"type_checking", "typing_type_checking", "tc_nested_if", "tc_nested_if_else", "tc_try", "tc_in_func", "tc_with_for"}
 # wrappers whose import statement CPython really executes when the module is imported
-EXECUTED = {"top", "func", "try_body", "try_else", "finally_body", "class_body", "type_checking_else", "with_body", "for_body", "nested_func"}
+EXECUTED = {"top", "func", "try_body", "try_else", "finally_body", "class_body", "type_checking_else", "with_body", "for_body", "nested_func", "tc_else_nested_if"}
 
 
 class Layout:
@@ -107,14 +109,26 @@ def gen_layout(rng, reuse_names=True):
                 st = {"kind": "f", "level": 0, "module": "os", "names": ["path"]}
             if st:
                 st["wrap"] = wrap
+                st["multi"] = rng.choice([None, None, None, "post_alias", "pre_alias", "both", "plain"])
                 d["stmts"].append(st)
     return L
 
 
 def stmt_text(st):
+    """cosmetic variants (st["multi"]) put the project import into a statement with further, standard-library modules, aliased or not, before and/or after it"""
+    multi = st.get("multi")
     if st["kind"] == "p":
-        return "import %s%s" % (st["module"], (" as al_%s" % st["module"].replace(".", "_")) if st.get("alias") else "")
-    return "from %s%s import %s" % ("." * st["level"], st["module"], ", ".join(st["names"]))
+        core = "%s%s" % (st["module"], (" as al_%s" % st["module"].replace(".", "_")) if st.get("alias") else "")
+        parts = {None: [core], "post_alias": [core, "os as _os_al"], "pre_alias": ["json as _json_al", core], "both": ["string", core, "os as _os_al2", "json"],
+                 "plain": ["string", core, "json"]}[multi]
+        return "import " + ", ".join(parts)
+    names = list(st["names"])
+    if multi in ("post_alias", "both") and names and names[0] != "*":
+        names[0] = "%s as _al_%s" % (names[0], names[0])
+    text = "from %s%s import %s" % ("." * st["level"], st["module"], ", ".join(names))
+    if multi in ("pre_alias", "both", "plain") and names and names[0] != "*":
+        text = "from %s%s import (\n    %s,\n)" % ("." * st["level"], st["module"], ",\n    ".join(names)) if False else text
+    return text
 
 
 def render_module(L, m):
@@ -153,6 +167,20 @@ def render_module(L, m):
             out += ["if typing.TYPE_CHECKING:", "    " + t]
         elif w == "type_checking_else":
             out += ["if TYPE_CHECKING:", "    pass", "else:", "    " + t]
+        elif w == "tc_nested_if":
+            out += ["if TYPE_CHECKING:", "    if len(__name__) >= 0:", "        " + t]
+        elif w == "tc_nested_if_else":
+            out += ["if TYPE_CHECKING:", "    if len(__name__) < 0:", "        pass", "    else:", "        " + t]
+        elif w == "tc_try":
+            out += ["if TYPE_CHECKING:", "    try:", "        " + t, "    except ImportError:", "        pass"]
+        elif w == "tc_in_func":
+            out += ["def _tc%d():" % k, "    if typing.TYPE_CHECKING:", "        if True:", "            " + t, "_tc%d()" % k]
+        elif w == "tc_with_for":
+            out += ["if TYPE_CHECKING:", "    for _j%d in range(1):" % k, "        if _j%d == 0:" % k, "            " + t]
+        elif w == "tc_else_nested_if":
+            out += ["if TYPE_CHECKING:", "    pass", "else:", "    if len(__name__) >= 0:", "        " + t]
+        elif w == "elif2_body":
+            out += ["if len(__name__) < 0:", "    pass", "elif len(__name__) < -1:", "    pass", "elif len(__name__) < -2:", "    " + t, "else:", "    pass"]
         elif w == "with_body":
             out += ["with open(__file__) as _fh%d:" % k, "    " + t]
         elif w == "for_body":
@@ -225,7 +253,7 @@ def lean_line(L, A, stmts):
         t += [p, n, s]
     t += [A, str(len(stmts))]
     for st in stmts:
-        t += ["1" if st["wrap"] in ("type_checking", "typing_type_checking") else "0", st["kind"], str(st["level"]), st["module"] or "-", ",".join(st["names"]) or "-"]
+        t += ["1" if st["wrap"] in TC_WRAPS else "0", st["kind"], str(st["level"]), st["module"] or "-", ",".join(st["names"]) or "-"]
     return " ".join(t)
 
 
